@@ -9,6 +9,10 @@ import (
 
 // Implements Tree.
 func (t *tree) RemoveExisting(ctx context.Context, key []byte) ([]byte, error) {
+	if len(key) > maxKeySize {
+		return nil, ErrKeyTooLarge
+	}
+
 	t.cache.Lock()
 	defer t.cache.Unlock()
 
